@@ -229,6 +229,9 @@ def c19(run):
     if run.tier == "thorough":
         run.model("MCRegistry.tla", "MCRegistry_lin_3x1.cfg", note="3 goroutines x 1 call: Linearizable with the history in the state")
     run.model("MCRegistry.tla", "MCRegistry_locks.cfg", note="3 goroutines x 2 calls: MutualExclusion, NoRace, RightName, OneWinner, WinnerSticks (VIEW hides the history)")
+    # the same safety invariants for ANY number of goroutines / names / services / calls: TLAPS proof of an inductive invariant
+    run.proof("RegistryProofs.tla", ["ChecksumRegistry.tla"], note="Spec => [](MutualExclusion /\\ RightName /\\ OneWinner /\\ WinnerSticks /\\ NoRace) and "
+              "[][the map changes only in a step of the write-lock holder with no reader inside]_vars, unbounded parameters, Deviations = {}")
     # sensitivity: each named deviation must violate its invariant
     run.model("MCRegistry.tla", "MCRegistry_dev_split.cfg", expect="OneWinner")
     run.model("MCRegistry.tla", "MCRegistry_dev_split_lin.cfg", expect="Linearizable")
